@@ -115,6 +115,7 @@ class Interp:
         ignore_calls=PRINT_FUNCS,
         assert_is_effect=False,
         watch=(),
+        mark_all=False,
     ):
         self.atom = atom
         self.effect_fn = effect
@@ -127,6 +128,7 @@ class Interp:
         self.assert_is_effect = assert_is_effect
         self.watch = set(watch)  # call names recorded as ("CALL", name, call) even inside values
         self.fresh = {}  # locals bound to fresh container displays (kept symbolic)
+        self.mark_all = mark_all  # snapshot-mark values assigned before any effect too
 
     # ------------------------------------------------------------- expressions
     def sub(self, expr):
@@ -368,7 +370,7 @@ class Interp:
             self.env.pop(target.id, None)
             return
         if isinstance(target, ast.Name):
-            if self.effects and not isinstance(val, (ast.Constant, ast.Name)) and not (
+            if (self.effects or self.mark_all) and not isinstance(val, (ast.Constant, ast.Name)) and not (
                 isinstance(val, ast.Call)
                 and isinstance(val.func, ast.Name)
                 and val.func.id == "__at"
